@@ -274,22 +274,62 @@ def r2_strict(ck, w):
 
 
 # ---------------------------------------------------------------- nesting profile (shared with C11)
+# conversions and borrows that carry no decision: adding or removing one (a needless clone, `iter()` for `into_iter()`, `to_vec()`) is not an operation of the profile
+PLUMBING = ('::Clone::clone', '::ToOwned::to_owned', '::Borrow::borrow', '::AsRef::as_ref', '::AsMut::as_mut', '::IntoIterator::into_iter', '::iter', '::iter_mut',
+            '::Iterator::copied', '::Iterator::cloned', '::to_vec', '::as_slice', '::as_mut_slice', '::as_str', '::ToString::to_string', '::Deref::deref',
+            '::DerefMut::deref_mut', '::Iterator::collect', '::Iterator::by_ref', '::Into::into')
+
+
 def nesting_profile(f, builtin=False):
     """{operation: sorted list of branch depths of its sites}; operation = resolved callee of a call / method call / overloaded operator;
     builtin=True also profiles the built-in integer operators and comparisons (`+=`, `-`, `<`, `<=`, …)"""
     from ..core import children
     prof = {}
 
+    def emptiness(n):
+        """`x.is_empty()`, `x.len() == 0`, `0 == x.len()`, `x.len() != 0`, `x.len() > 0`, `x.len() < 1`, `x.len() >= 1`: one idiom (clippy::len_zero rewrites one into
+        the other); returns the receiver"""
+        n = peel(n)
+        if n.get('k') == 'mcall' and n.get('m') == 'is_empty' and not n.get('args'):
+            return n['recv']
+        if n.get('k') == 'bin' and n.get('op') in ('==', '!=', '>', '<', '>=', '<=') and not n.get('f'):
+            a, b = peel(n['a']), peel(n['b'])
+            for x, y in ((a, b), (b, a)):
+                if x.get('k') == 'mcall' and x.get('m') == 'len' and not x.get('args') and y.get('k') == 'lit' and y.get('v') in ('i:0', 'i:1'):
+                    return x['recv']
+        return None
+
     def rec(n, d):
         k = n.get('k')
+        if builtin:
+            r = emptiness(n)
+            if r is None and k == 'un' and n.get('op') == '!' and not n.get('f'):
+                r = emptiness(n['e'])
+            if r is not None:
+                prof.setdefault('emptiness test', []).append(d)
+                rec(r, d)
+                return
         if k in ('call', 'mcall') and ('f' in n or 'rs' in n):
             c = callee(n)
-            if c and not c.startswith(('core::fmt', 'core::panicking', 'std::panicking', 'core::option::Option::Some', 'core::result::Result::Ok')):
+            if c and not c.startswith(('core::fmt', 'core::panicking', 'std::panicking', 'core::option::Option::Some', 'core::result::Result::Ok')) \
+                    and not (builtin and c.endswith(PLUMBING)):
                 prof.setdefault(c, []).append(d)
         elif k in ('bin', 'assignop', 'un') and n.get('f'):
             prof.setdefault((n.get('f') or '') + ':' + str(n.get('op')), []).append(d)
-        elif builtin and k in ('bin', 'assignop') and n.get('op') not in ('&&', '||'):
+        elif builtin and k in ('bin', 'assignop'):
             prof.setdefault('builtin:' + str(n.get('op')) + ('=' if k == 'assignop' and not str(n.get('op')).endswith('=') else ''), []).append(d)
+        elif builtin and k == 'un' and n.get('op') in ('!', '-'):
+            prof.setdefault('builtin:unary' + str(n.get('op')), []).append(d)
+        if builtin:
+            # the remaining value-level shape of bookkeeping code: integer literals, `?`, casts, range constructors
+            if k == 'lit' and str(n.get('v', '')).startswith('i:'):
+                prof.setdefault('literal ' + str(n['v'])[2:], []).append(d)
+            elif k == 'try':
+                prof.setdefault('operator ?', []).append(d)
+            elif k == 'cast' and n.get('t'):
+                prof.setdefault('cast as ' + str(n['t']), []).append(d)
+            elif k == 'struct' and 'ops::range::' in (n.get('p') or ''):
+                prof.setdefault('range ' + str(n['p']).rsplit('::', 1)[-1], []).append(d)
         if k == 'if':
             rec(n['c'], d)
             rec(n['a'], d + 1)
@@ -503,7 +543,8 @@ def eval_ops(ck, w, prop, rule):
         return
     table = _table('ops.json', prop, ck.config)
     ck.rule(rule, 'operation profile (rules/ops.json): for every function in ' + ', '.join(OPS_SCOPES[prop][1]) +
-                  ' and every operation it performs — resolved callees, overloaded operators and the BUILT-IN integer operators and comparisons — each site of '
+                  ' and every operation it performs — resolved callees, overloaded operators, the BUILT-IN integer / boolean operators and comparisons, integer literals, `?`, '
+                  'casts and range constructors — each site of '
                   'the reference tree still exists at the same or a shallower branch depth.  Index, offset, width and cursor arithmetic (`offset += n`, `i < len`, '
                   '`bits - 1`) is where off-by-one errors live; an operation that disappears (replaced by another one) or moves under a condition is reported.  '
                   'Added operations never fire; the values themselves are not decided.  New helpers are expanded and renamed functions are matched first.')
